@@ -14,8 +14,9 @@ CFG = dict(
     imports=["Model.Client", "Check.ClientC", "Check.ClientSpec", "Check.C05c"],
     case_type="c05case",
     find_bad_from="Check.C05c.find_bad_from",
-    go_tags="cl",
-    rigs=[dict(test="TestC05Perm", timeout_quick=300, timeout_thorough=1500),
+    go_tags="cl,sv",
+    rigs=[dict(test="TestC05Srv", timeout_quick=200, timeout_thorough=300),
+          dict(test="TestC05Perm", timeout_quick=300, timeout_thorough=1500),
           dict(test="TestC05Surplus", timeout_quick=200, timeout_thorough=300),
           dict(test="TestC05Fault", timeout_quick=200, timeout_thorough=300),
           dict(test="TestC05Slow", timeout_quick=200, timeout_thorough=300),
@@ -23,7 +24,7 @@ CFG = dict(
           dict(test="TestC05Wide", timeout_quick=200, timeout_thorough=300),
           dict(test="TestC05ByRef", timeout_quick=200, timeout_thorough=300),
           dict(test="TestC05Free", timeout_quick=300, timeout_thorough=900)],
-    reason_text={"1": "the real client's observation differs from every outcome of the Gallina model (Model/Client.v, all orders of internal rules)",
+    reason_text={"6": "server side: the message bodies written under a stream's id are not, in order and once each, among the messages its handler sent (per-stream order on the server->client wire)", "7": "server side: a qualifying unary request did not get its OWN handler invocation (same id, its payload), or a handler's reply was not written under the request's id to the request's source (requests with equal ids from different sources)", "1": "the real client's observation differs from every outcome of the Gallina model (Model/Client.v, all orders of internal rules)",
                  "2": "ids: two calls share an id on the wire (or an id is 0 / a call wrote no first envelope)",
                  "3": "route: a unary call's result is not what the FIRST delivered envelope carrying its id says",
                  "4": "route/order: the messages a stream's RecvMsg returned are not, in order and once each, the bodies of the delivered envelopes carrying its id",
